@@ -1467,7 +1467,8 @@ func c16ArbCase(h *vHarness, r *vRand, headroom bool, fx *c16Forced, hs bool) {
 			w.hd.Update(ctx, event.UpdateEvent{ObjectNew: obj}, w.q)
 			h.Op("phase %d %d", j.id, np)
 			w.emitState(w.view())
-		case k < 17: // the controller restarts: empty waiting collection and arbitrated map, one Create event per job in the API
+		case k < 17: // the controller restarts: empty waiting collection and arbitrated map, one Create event per job in the API (the handler
+			// ignores the Create event of a finished job)
 			l := &v1alpha1.PodMigrationJobList{}
 			if err := w.c.List(ctx, l); err != nil {
 				panic(err)
